@@ -15,7 +15,7 @@ fn roundtrip<T: Pixel>(c: &Cfg, y: &[u16], u: &[u16], v: &[u16]) -> Result<[Vec<
         Yuv::<T>::try_from((rgb, cfg))
     })?
     .map_err(|e| format!("conversion error {e:?}"))?;
-    if back.width() != y.len() || back.height() != 1 || back.config() != cfg {
+    if (back.width(), back.height()) != shape_of(y.len()) || back.config() != cfg {
         return Err(format!("dims/config changed: {}x{} {:?}", back.width(), back.height(), back.config()));
     }
     Ok([plane_samples(&back.data()[0]), plane_samples(&back.data()[1]), plane_samples(&back.data()[2])])
